@@ -1,0 +1,39 @@
+//go:build verif
+
+package gadget
+
+// The acceptance condition of the property: a volume accepted by the cross-structure validation
+// has, in mathematical integers, every explicitly placed structure starting at or after the end
+// of its predecessor, and no accumulated end offset beyond 2^64-1 (lemDisjoint then gives
+// pairwise disjointness in increasing order).
+
+//@ func validateCrossVolumeStructure
+//@   props C38
+//@   arith wrap
+//@   requires vol != nil
+//@   requires forall i int :: 0 <= i && i < len(vol.Structure) ==> (vol.Structure[i].OffsetWrite != nil ==> vol.Structure[i].OffsetWrite.Offset <= 4294967296)
+//@   ensures result == nil ==> old(crossOK(vol.Structure))
+//@   ensures result == nil ==> old(specEnd(vol.Structure, len(vol.Structure)-1)) <= 18446744073709551615
+//@   loop 0: frame
+//@   loop 0: invariant -1 <= idx0 && idx0 < len(ranged0) && ranged0 == old(vol.Structure)
+//@   loop 0: invariant forall k int :: 0 <= k && k < len(ranged0) ==> ranged0[k].OffsetWrite == old(vol.Structure[k].OffsetWrite) && ranged0[k].Offset == old(vol.Structure[k].Offset) && ranged0[k].Size == old(vol.Structure[k].Size)
+//@   loop 0: invariant previousEnd == old(specEnd(vol.Structure, idx0))
+//@   loop 0: invariant forall k int :: 0 <= k && k <= idx0 ==> old(vol.Structure[k].Offset != nil ==> specEnd(vol.Structure, k-1) <= *vol.Structure[k].Offset)
+
+// Where the layout takes structure positions from: the on-disk structure computed for gadget
+// structure k starts at specStart(k) (its explicit offset, or the end of its predecessor) and has
+// its size, provided no accumulated end exceeds 64 bits (which the validation above guarantees).
+// With lemDisjoint: accepted volumes are laid out at non-negative, increasing, disjoint ranges.
+
+//@ func OnDiskStructsFromGadget
+//@   props C38
+//@   arith wrap
+//@   requires volume != nil
+//@   requires forall k int :: 0 <= k && k < len(volume.Structure) ==> specEnd(volume.Structure, k) <= 18446744073709551615
+//@   ensures forall y int :: has(structures, y) ==> exists k int :: 0 <= k && k < old(len(volume.Structure)) && old(volume.Structure[k].YamlIndex) == y && structures[y].StartOffset == old(specStart(volume.Structure, k)) && structures[y].Size == old(volume.Structure[k].Size)
+//@   loop 0: frame
+//@   loop 0: invariant -1 <= idx0 && idx0 < len(ranged0) && ranged0 == old(volume.Structure) && structures != nil
+//@   loop 0: invariant forall k int :: 0 <= k && k < len(ranged0) ==> ranged0[k].Offset == old(volume.Structure[k].Offset) && ranged0[k].Size == old(volume.Structure[k].Size) && ranged0[k].YamlIndex == old(volume.Structure[k].YamlIndex)
+//@   loop 0: invariant offset == old(specEnd(volume.Structure, idx0))
+//@   loop 0: invariant forall y int :: has(structures, y) ==> structures[y] != nil && allocated(structures[y])
+//@   loop 0: invariant forall y int :: has(structures, y) ==> exists k int :: 0 <= k && k <= idx0 && old(volume.Structure[k].YamlIndex) == y && structures[y].StartOffset == old(specStart(volume.Structure, k)) && structures[y].Size == old(volume.Structure[k].Size)
